@@ -485,6 +485,12 @@ class Interp:
                     return self.const(sf, st[0]["rv"]["use"]["const"])
             return Opaque("static:" + k["static"], k["ty"])
         if "named" in k:
+            # a named constant with a literal initialiser: its value
+            cf = self.lookup_fn(k["named"])
+            if cf is not None and cf.kind.startswith("Const") and len(cf.blocks) == 1 and cf.blocks[0]["t"]["k"] == "return":
+                st = [x for x in cf.blocks[0]["s"] if "d" in x]
+                if len(st) == 1 and st[0]["d"] == {"l": 0} and "use" in st[0]["rv"] and "const" in st[0]["rv"]["use"] and "named" not in st[0]["rv"]["use"]["const"]:
+                    return self.const(cf, st[0]["rv"]["use"]["const"])
             return Opaque("const:" + k["named"], k["ty"])
         # zero-sized closure / unit struct constants
         if "closure@" in k.get("ty", ""):
@@ -498,7 +504,7 @@ class Interp:
             return None
         # evaluate straight-line promoted body
         sub = mir.Fn(dict(body, path=fn.path + "::promoted[%d]" % idx, kind="Promoted"), fn.crate)
-        it = Interp(self.F, max_depth=0, max_paths=4, max_steps=200)
+        it = Interp(self.F, models=self.models, max_depth=0, max_paths=4, max_steps=200)
         outs = it.run(sub, [])
         if len(outs) == 1 and outs[0].kind == "return":
             v = outs[0].value
@@ -556,6 +562,7 @@ class Interp:
                 to = rv["to"]
                 if to in ("f64", "f32"):
                     return v
+                p.events.append(("f2i", v.v, to))
                 return Opaque("float-to-int", to)
             if isinstance(v, Lin):
                 return Lin(v.terms, v.c, rv["to"])
@@ -577,6 +584,8 @@ class Interp:
                     return Int(-a.v, a.ty)
             if isinstance(a, Lin) and rv["un"] == "Neg":
                 return a.scale(-1)
+            if isinstance(a, Flt) and rv["un"] == "Neg":
+                return Flt(-a.v)
             if rv["un"] == "PtrMetadata":
                 if isinstance(a, Str):
                     return Int(len(a.s.encode()), "usize")
